@@ -685,7 +685,7 @@ def compare_lines(name: str, hdr: str, lines: list, violations: list, flagged: s
     files = []
     for k in range(0, len(lines), per):
         chunk = lines[k:k + per]
-        path = os.path.join(GEN, f"cases_{name}_{k // per}.v")
+        path = os.path.join(GEN, f"cases_{name}_p{os.getpid()}_{k // per}.v")
         body = [hdr, "Goal True.\n"] + [f"  chk_eq {i}%nat {lhs} {rhs}.\n" for i, (lhs, rhs, _) in enumerate(chunk)] + ["exact I. Qed.\n"]
         open(path, "w").write("".join(body))
         files.append((path, chunk))
